@@ -168,7 +168,7 @@ type pipe struct {
 	reset   bool  // connection reset: reader sees an error immediately
 	opts    StreamOpts
 	tap     *StreamTap
-	stalled bool // reader has stopped reading (harness-controlled): nothing is consumed
+	stalled bool  // reader has stopped reading (harness-controlled): nothing is consumed
 	heldTil int64 // virtual time at which the bytes from opts.HoldAt on become readable (0 = not written yet)
 }
 
